@@ -5,7 +5,7 @@
 From Coq Require Import ZArith List Bool.
 From TV Require Import Model.SqlSpecAgg Model.AggImpl Model.AggClass Model.AggJoin
   Proof.AggFold Proof.AggFoldSpec Proof.AggRefute Proof.AggKeys Proof.AggGroups Proof.AggGroupsMain
-  Proof.AggQuery3.
+  Proof.AggQuery3 Proof.AggFloat.
 Import ListNotations.
 Open Scope Z_scope.
 
@@ -25,6 +25,23 @@ Check agg_fold_spec :
     agg_vals f vs = AVal v ->
     exists s, fold_upd (kind_of_fn f) st0 (map Some vs) = SOk s /\ fin (kind_of_fn f) s = v.
 Print Assumptions agg_fold_spec.
+
+(* SUM / AVG over doubles that are exactly summable (multiples of 2^-10 below 2^33, fewer than 1024):
+   every `sum_float += f` is exact (round_q is exact on 53-bit dyadics), the fold ends with the
+   reference SUM (a zero sum is returned as the integer 0: equal as SQL values) and AVG divides it
+   by the count *)
+Theorem agg_fold_float_sum :
+  forall f vs fs v,
+    (f = FSum \/ f = FAvg) -> floats_of (nonnull vs) = Some fs -> fs <> [] ->
+    agg_vals f vs = AVal v ->
+    exists s, fold_upd (kind_of_fn f) st0 (map Some vs) = SOk s /\ val_match (fin (kind_of_fn f) s) v.
+Proof. exact Proof.AggFloat.agg_fold_float_sum. Qed.
+Check agg_fold_float_sum :
+  forall f vs fs v,
+    (f = FSum \/ f = FAvg) -> floats_of (nonnull vs) = Some fs -> fs <> [] ->
+    agg_vals f vs = AVal v ->
+    exists s, fold_upd (kind_of_fn f) st0 (map Some vs) = SOk s /\ val_match (fin (kind_of_fn f) s) v.
+Print Assumptions agg_fold_float_sum.
 
 (* the whole query: for EVERY query (WHERE, 0..n plain-column keys, any list of aggregates over plain
    columns, any select list over them, HAVING over the keys and the selected aggregates) and EVERY
@@ -197,3 +214,12 @@ Example query_correct_nonvacuous :
   (let q0 := mkQ None [] [mkAgg FCountStar (ECol 0); mkAgg FMax (ECol 1)] [0%nat; 1%nat] None in
    q_class q0 [] = 0 /\ q_int_sums q0 [] = true /\ spec_query q0 [] = SRows [[VInt 0; VNull]]).
 Proof. cbv zeta. repeat split; vm_compute; reflexivity. Qed.
+
+(* non-vacuity of agg_fold_float_sum: 1.5 + NULL + 2.25 + (-0.75) = 3.0, and a sum that cancels *)
+Example agg_fold_float_nonvacuous :
+  (let vs := [VFloat 4609434218613702656; VNull; VFloat 4612248968380809216; VFloat 13828302655841107968] in
+   floats_of (nonnull vs) = Some [4609434218613702656; 4612248968380809216; 13828302655841107968] /\
+   agg_vals FSum vs = AVal (VFloat 4613937818241073152) /\ exists a, agg_vals FAvg vs = AVal (VFloat a)) /\
+  (let vs := [VFloat 4609434218613702656; VFloat 13832806255468478464] in
+   agg_vals FSum vs = AVal (VFloat 0)).
+Proof. cbv zeta. repeat split; try (vm_compute; reflexivity). eexists; vm_compute; reflexivity. Qed.
